@@ -8,7 +8,7 @@ Notation length := List.length.
 
 (* The model instance that corresponds to /repo's working tree: cesium.DeleteChannels removes
    virtual channels (tree after fix F9). *)
-Definition tree_fixed : bool := true.
+Definition tree_fixed : bool := false.
 
 (* ---- raw observations (as printed by the harness) *)
 (* name lease dt isidx lkey lidx virt internal expr *)
@@ -157,6 +157,35 @@ Fixpoint ok_steps (validate : bool) (seen : list N) (clean : bool) (before : obs
       ok_steps validate (seen ++ okeys ob ++ (fst <$> ret)) clean' ob rest
   end.
 
+(* which clause fails at which step (for replays): 1 returned keys, 2 reappearing key, 3 names,
+   4 metadata = engines, 5 deleted channel still reachable; step 0 = initial state *)
+Fixpoint why_steps (validate : bool) (i : nat) (seen : list N) (clean : bool) (before : obs) (tr : list step_t)
+  : list (nat * nat) :=
+  match tr with
+  | [] => []
+  | (o, er, ret, ob) :: rest =>
+      let okr := match o with
+                 | Create gw req retr over =>
+                     if is_ok er then ok_returned gw req retr over seen before ret else true
+                 | _ => true
+                 end in
+      let appeared := filter (fun k => negb (mem k (okeys before))) (okeys ob) in
+      let ok_new := forallb (fun k => negb (mem k seen)) appeared in
+      let clean' := clean && (is_ok er || same_stores before ob) in
+      (if okr then [] else [(i, 1%nat)]) ++ (if ok_new then [] else [(i, 2%nat)]) ++
+      (if validate && negb (ok_names ob) then [(i, 3%nat)] else []) ++
+      (if clean' && negb (ok_meta_engine ob) then [(i, 4%nat)] else []) ++
+      (if ok_gone ob then [] else [(i, 5%nat)]) ++
+      why_steps validate (S i) (seen ++ okeys ob ++ (fst <$> ret)) clean' ob rest
+  end.
+Definition why (c : case_t) : list (nat * nat) :=
+  match c with
+  | (v, o0, tr) =>
+      (if v && negb (ok_names o0) then [(0%nat, 3%nat)] else []) ++
+      (if ok_meta_engine o0 then [] else [(0%nat, 4%nat)]) ++
+      why_steps v 1 (okeys o0) true o0 tr
+  end.
+
 Definition ok_C15 (c : case_t) : bool :=
   match c with
   | (v, o0, tr) =>
@@ -178,4 +207,4 @@ Fixpoint model_steps (validate : bool) (s : st) (tr : list step_t) :=
       (er', ret_of ret', dump_tab s', dump_eng s', dump_ctr s', s_free s', s_amb s') :: model_steps validate s' rest
   end.
 Definition model_dump (c : case_t) :=
-  match c with (v, o0, tr) => model_steps v (st_of o0) tr end.
+  match c with (v, o0, tr) => (why c, model_steps v (st_of o0) tr) end.
